@@ -6,11 +6,11 @@ from .common import prtpy, out, prt, item_vars, numbers, present, named, names_o
 
 
 class H:
-    def __init__(self, n, d=None, order='any', pres='nv'):
-        self.n = n; self.d = d; self.order = order; self.pres = pres
+    def __init__(self, n, d=None, order='any', pres='nv', groups=None):
+        self.n = n; self.d = d; self.order = order; self.pres = pres; self.groups = groups
 
     def setup(self, c):
-        idx = item_vars(c, self.n, 0, self.order)
+        idx = item_vars(c, self.n, 0, self.order, groups=self.groups)
         c.ns['x'] = [c.zvars[i] for i in idx]
         return (idx,)
 
@@ -45,7 +45,11 @@ class H:
         conj = []
         for r in range(n + 1):
             if abs(2 * r - n) > dd: continue
+            seen = set()
             for S in itertools.combinations(range(n), r):
+                key = tuple(sorted(idx[i] for i in S))      # tier C: equal items are interchangeable
+                if key in seen: continue
+                seen.add(key)
                 a = zsum(xs[i] for i in S)
                 conj.append(z3.Or(mine <= 2 * a - tot, mine <= tot - 2 * a))
         c.check('suboptimal', z3.And(conj), 'CBLDM difference is not the smallest achievable under cardinality bound %s: bins %s' % (dd, c.outcome['bins']))
@@ -72,7 +76,13 @@ def jobs(tier):
     for d in (None, 1, 2, 3):
         J.append(job(5, d=d, order='desc')); J.append(job(6, d=d, order='desc'))
     J.append(job(5, d=1)); J.append(job(5, d=2))
+    # tier C: 7-9 items taking two to four distinct symbolic values
+    for g, d in (([1, 3, 2, 1], 1), ([1, 2, 2, 2], 1), ([1, 2, 4], 1), ([1, 3, 3], 2), ([1, 3, 4], 1), ([2, 3, 3], 2), ([1, 4, 4], 1)):
+        J.append(job(sum(g), d=d, order='desc', groups=g))
     if tier == 'thorough':
+        for g in ([1, 2, 2, 3], [2, 2, 2, 2], [1, 1, 3, 3], [1, 2, 3, 3], [3, 3, 3]):
+            for d in (1, 2, 3):
+                J.append(job(sum(g), d=d, order='desc', groups=g, mandatory=False))
         for d in (None, 3, 4):
             J.append(job(5, d=d))
         for d in (1, 2, 3):
@@ -82,4 +92,4 @@ def jobs(tier):
 
 
 ASSUMPTIONS = ['S1 numpy shim', 'S2 exact arithmetic', 'no time limit (the clock is not stubbed: time_limit is infinite)']
-OUTSIDE = ['more than 6 items (7 attempted in the thorough tier, claimed only if it finishes)', 'orders other than non-increasing for n >= 5 in the quick tier']
+OUTSIDE = ['more than 6 items with pairwise independent values (7 attempted in the thorough tier, claimed only if it finishes); more than 9 items with at most four distinct values', 'orders other than non-increasing for n >= 5 in the quick tier']
